@@ -10,8 +10,10 @@ import (
 	"sort"
 	"strconv"
 	"strings"
+	"testing/synctest"
 	"time"
 
+	"github.com/hashicorp/raft"
 	"github.com/rqlite/rqlite/v10/snapshot"
 	"verifsim/core"
 	"verifsim/node"
@@ -33,7 +35,7 @@ type c12Op struct {
 	Mask  int    `json:"mask,omitempty"` // flip xor mask
 	More  int    `json:"more,omitempty"` // additional random flips in the same file (seeded by Off)
 	Phase string `json:"ph"`             // a: before the store is opened | b: after its first verification
-	Cons  string `json:"c"`              // start | restore | transfer | reap
+	Cons  string `json:"c"`              // start | restore | transfer | reap | autoreap (background reaper of a snapshot.Store, triggered by a persisted incremental) | autoreap-node (same through a real node restarted on the clean-snapshot fast path)
 	Zstd  bool   `json:"zstd,omitempty"` // transfer with compression
 	Old   bool   `json:"old,omitempty"`  // restore/transfer: consume the oldest snapshot instead of the newest
 }
@@ -296,12 +298,16 @@ var c12Build = []string{"w3", "snap", "w2", "snap", "big", "w2", "snap", "w1"}
 type c12Combo struct {
 	store, cons, phase string
 	per                int
+	quickStride        int // quick tier: take every n-th mutation only (expensive consumers)
 }
 
 var c12Combos = []c12Combo{
-	{"src", "start", "a", 30}, {"src", "restore", "a", 120}, {"src", "transfer", "a", 120}, {"src", "reap", "a", 120},
-	{"src", "restore", "b", 120}, {"src", "transfer", "b", 120}, {"src", "reap", "b", 120},
-	{"inst", "restore", "a", 120}, {"inst", "transfer", "a", 120}, {"inst", "restore", "b", 120}, {"inst", "transfer", "b", 120},
+	{"src", "start", "a", 30, 1}, {"src", "restore", "a", 120, 1}, {"src", "transfer", "a", 120, 1}, {"src", "reap", "a", 120, 1},
+	{"src", "restore", "b", 120, 1}, {"src", "transfer", "b", 120, 1}, {"src", "reap", "b", 120, 1},
+	{"inst", "restore", "a", 120, 1}, {"inst", "transfer", "a", 120, 1}, {"inst", "restore", "b", 120, 1}, {"inst", "transfer", "b", 120, 1},
+	// the background reaper as FIRST consumer of data that was corrupt when the
+	// store was opened (lazy verification: nothing verified the files before)
+	{"src", "autoreap", "a", 120, 1}, {"src", "autoreap-node", "a", 30, 4},
 }
 
 // c12Enumerate: for one generated store (quick) every file x every mutation of
@@ -330,7 +336,10 @@ func c12Enumerate(tier string) []any {
 				if slot%2 == 1 {
 					muts = side
 				}
-				for _, m := range muts {
+				for mi, m := range muts {
+					if quick && cb.quickStride > 1 && (mi+slot)%cb.quickStride != 0 {
+						continue
+					}
 					m.File, m.Phase, m.Cons = slot, cb.phase, cb.cons
 					m.Zstd = cb.cons == "transfer" && (len(ops)%3 == 0)
 					ops = append(ops, m)
@@ -369,10 +378,13 @@ func c12Gen(r *core.Rand, tier string) any {
 		case x < 60:
 			op.More = r.Range(1, 4)
 		}
-		cons := []string{"restore", "transfer", "reap", "start"}
+		cons := []string{"restore", "transfer", "reap", "start", "autoreap", "autoreap-node"}
 		op.Cons = cons[r.Intn(len(cons))]
-		if op.Cons == "start" && (op.Phase == "b" || sc.Store == "inst" || r.Bool(0.6)) {
+		if (op.Cons == "start" || op.Cons == "autoreap-node") && (op.Phase == "b" || sc.Store == "inst" || r.Bool(0.6)) {
 			op.Cons = "restore"
+		}
+		if op.Cons == "autoreap" && (op.Phase == "b" || sc.Store == "inst") {
+			op.Cons = "reap"
 		}
 		if op.Cons == "reap" && sc.Store == "inst" {
 			op.Cons = "transfer"
@@ -396,6 +408,13 @@ type c12Env struct {
 	tmp     string
 	work    string
 	nodeUse bool
+
+	// autoreap consumers: the store as it was before its newest (incremental)
+	// snapshot, and that snapshot's WAL files as a staging directory
+	imgPrev   string
+	stageImg  string
+	newestID  string
+	extraRows int
 }
 
 func c12Run(c *core.Ctx, raw json.RawMessage) {
@@ -457,7 +476,7 @@ func c12Run(c *core.Ctx, raw json.RawMessage) {
 		e.img = filepath.Join(c.Dir, "I.img")
 		node.CopyTree(filepath.Join(c.Dir, "I"), e.img)
 	}
-	src.Node.Extra = func(n *node.Node) error { return n.Store.ForceSnapshotRestore() }
+	e.prepareAutoReap()
 
 	for opi := range sc.Ops {
 		if c.Failed() {
@@ -475,15 +494,23 @@ func c12Run(c *core.Ctx, raw json.RawMessage) {
 
 func (e *c12Env) one(opi int, op *c12Op, storeKind string) {
 	c := e.c
-	if op.Cons == "start" && (storeKind != "src" || op.Phase != "a") {
+	nodeCons := op.Cons == "start" || op.Cons == "autoreap-node"
+	if (nodeCons || op.Cons == "autoreap") && (storeKind != "src" || op.Phase != "a") {
 		c.Probe("op_not_applicable")
+		return
+	}
+	if op.Cons == "autoreap" && e.imgPrev == "" {
+		c.Probe("op_not_applicable") // newest snapshot is not an incremental on top of older ones
 		return
 	}
 	// everything that decides applicability is computed on the pristine image
 	n := e.src.Node
 	pristine := e.img
-	if op.Cons == "start" {
+	if nodeCons {
 		pristine = filepath.Join(e.src.NodeDir, "wsnapshots")
+	}
+	if op.Cons == "autoreap" {
+		pristine = e.imgPrev
 	}
 	files := c12Inventory(pristine)
 	dirs := c12Dirs(pristine)
@@ -516,28 +543,34 @@ func (e *c12Env) one(opi int, op *c12Op, storeKind string) {
 	// working copy
 	storeDir := e.work
 	os.RemoveAll(e.work)
-	if op.Cons == "start" {
+	if nodeCons {
 		os.RemoveAll(n.Dir)
 		if err := node.CopyTree(e.src.NodeDir, n.Dir); err != nil {
 			c.Discard("copy: " + err.Error())
 			return
 		}
 		storeDir = filepath.Join(n.Dir, "wsnapshots")
-	} else if err := node.CopyTree(e.img, e.work); err != nil {
+	} else if err := node.CopyTree(pristine, e.work); err != nil {
 		c.Discard("copy: " + err.Error())
 		return
 	}
 	target := dirs[len(dirs)-1]
-	if op.Old && op.Cons != "reap" && op.Cons != "start" {
+	if op.Old && (op.Cons == "restore" || op.Cons == "transfer") {
 		target = dirs[0]
 	}
 	ref := e.refs[target]
+	if op.Cons == "autoreap" {
+		// after the incremental has been persisted the store's newest content is
+		// that of the original store's newest snapshot
+		ref = e.refs[e.newestID]
+	}
 	if ref == nil {
 		c.Discard("no reference for " + target)
 		return
 	}
+	isReap := op.Cons == "reap" || op.Cons == "autoreap" || op.Cons == "autoreap-node"
 	var relevant bool
-	if op.Cons == "reap" {
+	if isReap {
 		relevant = c12ReapInputs(storeDir, dirs)[f.Dir]
 	} else {
 		relevant = c12Needed(storeDir, dirs, target)[f.Dir]
@@ -564,7 +597,7 @@ func (e *c12Env) one(opi int, op *c12Op, storeKind string) {
 			c.Discard("cannot write mutated file")
 			return
 		}
-		if op.Cons != "start" && !open() {
+		if !nodeCons && !open() {
 			c.Res.Cases++
 			c.Fault(op.Kind)
 			return
@@ -613,7 +646,8 @@ func (e *c12Env) one(opi int, op *c12Op, storeKind string) {
 	var out []byte     // database produced (nil = consumer failed = corruption detected or operation refused)
 	var failure string // where it failed
 	reapOK := false    // reap itself returned nil
-	var startDump string
+	var startDump string // logical dump the consumer produced (node consumers)
+	var wantDump string  // ... and what it has to be
 	switch op.Cons {
 	case "restore":
 		out, failure = e.restore(st, target)
@@ -643,7 +677,16 @@ func (e *c12Env) one(opi int, op *c12Op, storeKind string) {
 				failure += " (store still serves its newest snapshot)"
 			}
 		}
+	case "autoreap":
+		out, failure, reapOK = e.autoReap(st, storeDir, len(dirs))
+	case "autoreap-node":
+		out, failure, reapOK, startDump, wantDump = e.autoReapNode(n, storeDir, len(dirs))
+		if c.Res.Verdict == core.Discarded {
+			return
+		}
 	case "start":
+		n.Extra = func(n *node.Node) error { return n.Store.ForceSnapshotRestore() }
+		wantDump = e.src.FinalDump
 		serr := e.s.Restart(1)
 		if serr != nil {
 			if !strings.Contains(serr.Error(), "open n1") {
@@ -674,13 +717,13 @@ func (e *c12Env) one(opi int, op *c12Op, storeKind string) {
 	// ---- judge
 	if out != nil {
 		same := bytes.Equal(out, ref.Ref)
-		if op.Cons == "start" {
-			same = startDump == e.src.FinalDump
+		if nodeCons {
+			same = startDump == wantDump
 		}
 		if !same {
 			diff := ""
-			if op.Cons == "start" {
-				diff = sim.FirstDiff(e.src.FinalDump, startDump)
+			if nodeCons {
+				diff = sim.FirstDiff(wantDump, startDump)
 			} else {
 				os.WriteFile(e.tmp, out, 0o644)
 				diff = c10DumpDiff(c, ref, e.tmp)
@@ -696,8 +739,8 @@ func (e *c12Env) one(opi int, op *c12Op, storeKind string) {
 			violate(c, "altered-data-used", "%s: the consumer succeeded and produced a database that differs from the original: %s", tag, diff)
 			return
 		}
-		if relevant && op.Cons == "reap" && op.Phase == "a" && reapOK && !benign {
-			violate(c, "corruption-undetected", "%s: Reap succeeded although a file it consolidates was corrupt before the store was opened", tag)
+		if relevant && isReap && op.Phase == "a" && reapOK && !benign {
+			violate(c, "corruption-undetected", "%s: the reap (%s) consolidated a file that was corrupt before the store was opened, without any verification", tag, op.Cons)
 			return
 		}
 		if relevant && !(op.Cons == "reap" && op.Phase == "b") {
@@ -705,7 +748,7 @@ func (e *c12Env) one(opi int, op *c12Op, storeKind string) {
 				e.def.set(c, "sidecar-corruption-accepted", "%s: corrupted checksum record still decodes to the same checksum and was accepted (data unaltered)", tag)
 				return
 			}
-			if op.Cons == "reap" && !reapOK {
+			if isReap && !reapOK {
 				c.Probe("detected_by_reap")
 				return
 			}
@@ -730,6 +773,154 @@ func (e *c12Env) one(opi int, op *c12Op, storeKind string) {
 	if op.Phase == "b" && relevant && (op.Cons == "restore" || op.Cons == "transfer") {
 		c.Probe("detected_after_first_verification")
 	}
+}
+
+// prepareAutoReap derives, from the pristine store, the store as it was before
+// its newest snapshot and that snapshot's WAL files as a staging directory.
+// Only possible when the newest snapshot is an incremental on top of others.
+func (e *c12Env) prepareAutoReap() {
+	dirs := c12Dirs(e.src.SnapDir)
+	if len(dirs) < 2 {
+		return
+	}
+	newest := dirs[len(dirs)-1]
+	if c12IsFull(e.src.SnapDir, newest) || e.refs[newest] == nil {
+		return
+	}
+	prev := filepath.Join(e.c.Dir, "prev.img")
+	stage := filepath.Join(e.c.Dir, "stage.img")
+	if err := node.CopyTree(e.src.SnapDir, prev); err != nil {
+		return
+	}
+	if err := os.Rename(filepath.Join(prev, newest), stage); err != nil {
+		return
+	}
+	os.Remove(filepath.Join(stage, "meta.json"))
+	e.imgPrev, e.stageImg, e.newestID = prev, stage, newest
+}
+
+// autoReap persists the next incremental snapshot into the store the way a
+// running node does (staged WAL directory + IncrementalFile header through
+// Store.Create / Sink.Write / Sink.Close) with the reap threshold set so that
+// this snapshot triggers the background reaper; then restores whatever the
+// store lists as newest. consolidated reports that the reaper ran its plan.
+func (e *c12Env) autoReap(st *snapshot.Store, storeDir string, ndirs int) (out []byte, failure string, consolidated bool) {
+	c := e.c
+	st.SetReapThreshold(ndirs + 1)
+	stage := filepath.Join(c.Dir, "stage")
+	os.RemoveAll(stage)
+	if err := node.CopyTree(e.stageImg, stage); err != nil {
+		c.Discard("copy: " + err.Error())
+		return nil, "copy", false
+	}
+	meta := e.refs[e.newestID].Meta
+	sink, err := st.Create(raft.SnapshotVersionMax, meta.Index, meta.Term, meta.Configuration, meta.ConfigurationIndex, nil)
+	if err != nil {
+		return nil, "create: " + err.Error(), false
+	}
+	streamer, err := snapshot.NewSnapshotPathStreamer(stage)
+	if err != nil {
+		sink.Cancel()
+		return nil, "streamer: " + err.Error(), false
+	}
+	if _, err := io.Copy(sink, streamer); err != nil {
+		sink.Cancel()
+		return nil, "persist: " + err.Error(), false
+	}
+	if err := sink.Close(); err != nil {
+		return nil, "sink close: " + err.Error(), false
+	}
+	c.Probe("autoreap_incremental_persisted")
+	// the reaper goroutine was signalled by Close; let it run to completion
+	synctest.Wait()
+	after := c12Dirs(storeDir)
+	consolidated = len(after) == 1 && ndirs+1 > 1
+	if consolidated {
+		c.Probe("autoreap_consolidated")
+	}
+	ids, _, lerr := xfer.IDs(st)
+	if lerr != nil || len(ids) == 0 {
+		return nil, fmt.Sprintf("list after auto-reap: %v", lerr), consolidated
+	}
+	out, failure = e.restore(st, ids[len(ids)-1])
+	return out, failure, consolidated
+}
+
+// autoReapNode restarts the real node on the clean-snapshot fast path (no
+// restore, so no verification at start), writes one row and takes a snapshot
+// with the reap threshold set so that this snapshot triggers the node's
+// background reaper. Afterwards the node is stopped and its snapshot store is
+// opened by a fresh instance (what the next start, a transfer or a restore
+// would do): the newest snapshot must either fail to restore or restore to
+// what the node contained.
+func (e *c12Env) autoReapNode(n *node.Node, storeDir string, ndirs int) (out []byte, failure string, consolidated bool, got, want string) {
+	c := e.c
+	n.Extra = nil
+	n.Knobs.SnapshotReapThreshold = ndirs + 1
+	if serr := e.s.Restart(1); serr != nil {
+		if !strings.Contains(serr.Error(), "open n1") {
+			c.Discard("restart: " + serr.Error())
+			return
+		}
+		n.Store.AbortOpenVerif()
+		n.Net.HostDown(n.HostName)
+		c.Probe("autoreap_node_start_refused")
+		return nil, serr.Error(), false, "", ""
+	}
+	c.Probe("autoreap_node_fastpath_start")
+	stop := func() {
+		e.s.Do("stop-n1", 120*time.Second, func() { n.Stop() })
+	}
+	if !e.s.RunUntil(func() bool { return n.Store.IsLeader() }, 60*time.Second) {
+		stop()
+		c.Discard("restarted node did not become leader")
+		return
+	}
+	e.extraRows++
+	if !execOn(e.s, n, fmt.Sprintf("INSERT INTO t(k,v) VALUES(%d,'after restart')", 100000+e.extraRows)) {
+		stop()
+		c.Discard("write after restart failed")
+		return
+	}
+	var serr error
+	if !e.s.Do("snapshot", 120*time.Second, func() { serr = n.Store.Snapshot(0) }) {
+		stop()
+		c.Discard("snapshot after restart did not finish")
+		return
+	}
+	e.s.RunFor(300 * time.Millisecond) // background reaper
+	want, derr := e.s.DumpNode(n)
+	stop()
+	if derr != nil {
+		c.Discard("dump: " + derr.Error())
+		return
+	}
+	if serr != nil {
+		return nil, "snapshot: " + serr.Error(), false, "", want
+	}
+	c.Probe("autoreap_node_snapshot_persisted")
+	consolidated = len(c12Dirs(storeDir)) == 1
+	if consolidated {
+		c.Probe("autoreap_consolidated")
+	}
+	st, err := snapshot.NewStore(storeDir)
+	if err != nil {
+		return nil, "newstore: " + err.Error(), consolidated, "", want
+	}
+	defer st.Close()
+	ids, _, lerr := xfer.IDs(st)
+	if lerr != nil || len(ids) == 0 {
+		return nil, fmt.Sprintf("list: %v", lerr), consolidated, "", want
+	}
+	b, f := e.restore(st, ids[len(ids)-1])
+	if b == nil {
+		return nil, f, consolidated, "", want
+	}
+	got, derr = sim.DumpFiles(e.tmp, c.Dir)
+	if derr != nil {
+		got = "dump of restored file failed: " + derr.Error()
+	}
+	return b, "", consolidated, got, want
 }
 
 func trunc(s string, n int) string {
